@@ -29,7 +29,8 @@ func closedForm(n uint) float64 {
 func suiteBackoff(e *vh.Env) {
 	e.OpenOps("backoff")
 	e.Result.Rule = "retry counts 0..200, 2^k and 2^k±1 for k<=64, 2^32, max, plus random 64-bit counts; each with seeded jitter draws; non-trivial = distinct (count, draw)"
-	e.Op("maxretry", fmt.Sprintf("%d", uint(utils.VerifMaxRetryCount())))
+	// (the cap index uint(maxRetryCount) is not read through an export shim: a refactoring that
+	// removes the variable must not stop this driver from building; goextract pins its definition)
 	var counts []uint
 	for i := uint(0); i <= 200; i++ {
 		counts = append(counts, i)
